@@ -780,6 +780,20 @@ Proof.
   lia.
 Qed.
 
+Lemma extend_spec (zs news : list (list Z)) : length news = length zs ->
+  (forall (v : nat) d, (v < length zs)%nat -> nth v (extend zs news) d = nth v zs d ++ nth v news d) /\
+  (Forall (fun a => a = []) news -> extend zs news = zs).
+Proof.
+  unfold extend. revert news. induction zs as [|z zs IH]; intros news Hl.
+  - split; [intros v d Hv; cbn in Hv; lia|]. intros _. reflexivity.
+  - destruct news as [|a news]; [discriminate Hl|]. cbn [length] in Hl.
+    destruct (IH news ltac:(lia)) as [IH1 IH2]. split.
+    + intros v d Hv. destruct v as [|v]; [reflexivity|]. cbn [combine map nth].
+      apply IH1. cbn [length] in Hv. lia.
+    + intro Hall. inversion Hall as [|? ? Ha Hrest]; subst. cbn [combine map fst snd].
+      rewrite app_nil_r. f_equal. apply IH2. exact Hrest.
+Qed.
+
 Lemma infer_scitype_spec b1 b2 :
   infer_scitype b1 b2 = if b1 then Ok TimeSeries else if b2 then Ok Tabular else Err.
 Proof. reflexivity. Qed.
